@@ -205,6 +205,20 @@ pub fn run(run: &Run) {
         }
         roots.push((format!("{:?}/fm={}", net, fm), r));
     }
+    // testnet shortly before TIP-902 (height 500: the ERG/SYM pool becomes built-in) with a pool created by a user: the pool tree
+    // holds three pools although the third built-in one does not exist yet
+    {
+        let (_w, r) = root(NetID::Testnet, 0, true);
+        let mut pc = crate::props::c01::pool_cfg();
+        pc.seal_actions = vec![None];
+        match advance_by_labels(&scratch, r, &pc, &["open", "mint(", "seal(None)", "open", "deposit[MEL/C", "seal(None)"]) {
+            Some(n) => match eng.step(&n, &Action::Jump(496)) {
+                StepOut::Next(j) => roots.push(("Testnet/user-pool-before-tip902".into(), j)),
+                _ => run.outcome("user-pool-root-unavailable"),
+            },
+            None => run.outcome("user-pool-root-unavailable"),
+        }
+    }
     // scalar header fields away from their defaults (fee pool, fee multiplier, DOSC speed), so that a field that is not restored shows
     {
         let (w, r) = root(NetID::Custom02, 0, true);
